@@ -39,6 +39,7 @@ M = [
  ('C10', 'synset-hash-without-lexid', 'wn/_core.py', "        return hash((self._ENTITY_TYPE, self._ili, self._lexid, self._id))", "        return hash((self._ili, self._lexid))"),
  ('C16', 'common-hypernyms-unsorted', 'wn/taxonomy.py', "    return sorted(common)\n", "    return list(common)\n"),
  ('C16', 'unique-list-via-set', 'wn/_util.py', "    targets = {item: True for item in items}\n    return list(targets)", "    return list(set(items))"),
+ ('C01', 'synset-lookup-any-earlier-lexicon', 'wn/_add.py', "     WHERE ss.id = ?\n       AND ss.lexicon_rowid = ?", "     WHERE ss.id = ?\n       AND ss.lexicon_rowid <= ?"),
 ]
 for m in M:
     try:
